@@ -41,6 +41,15 @@ MUTANTS = [
     ("m55", "models.py", "solution = [item for v in self.variables for item in (v.randomize() if v.has_children() else [v.randomize()])]", "solution = [item for v in self.variables[1:] for item in (v.randomize() if v.has_children() else [v.randomize()])]", [P + "models.Task.empty_solution"], True),
     ("m56", "models.py", 'kwargs["space_dimension"] = sum([v.size() for v in variables])', 'kwargs["space_dimension"] = len(variables)', [P + "models.Task.__init__"], True),
     ("m57", "models.py", "            lb.extend(lb_ if v.has_children() else [lb_])\n            ub.extend(ub_ if v.has_children() else [ub_])", "            lb.extend(lb_ if v.has_children() else [lb_])\n            ub.extend(lb_ if v.has_children() else [lb_])", [P + "models.Task.get_bounds"], True),
+    ("m60", "models.py", "        return [v.randomize() for v in self._children]\n", "        return [v.randomize() for v in self._children][:-1]\n", [P + "models.ContinuousMultiVariable.randomize"], True),
+    ("m61", "models.py", 'solution[v.name] = v.decode(temp if v.has_children() else temp[0])', 'solution[v.name] = v.decode(temp if len(temp) > 1 else temp[0])', [P + "models.Task.transform_solution"], True),
+    ("m62", "models.py", "            solution[v.name] = v.decode(temp if v.has_children() else temp[0])\n            counter += v.size()", "            solution[v.name] = v.decode(temp if v.has_children() else temp[0])\n            counter += 1", [P + "models.Task.transform_solution"], True),
+    ("m63", "models.py", "if not np.all(np.array(self.objective_weights) >= 0):", "if not np.all(np.array(self.objective_weights) > 0):", [P + "models.Task.validate_objective_weights"], True),
+    ("m64", "models.py", "np.array([ub <= lb for lb, ub in zip(self.lower_bounds, self.upper_bounds)])", "np.array([ub < lb for lb, ub in zip(self.lower_bounds, self.upper_bounds)])", [P + "models.ContinuousMultiVariable.validate_bounds", P + "models.ContinuousMultiVariable.__init__"], True),
+    ("m65", "models.py", "for i in range(self.n_vars)]", "for i in range(self.n_vars - 1)]", [P + "models.BinaryVariable.__init__"], True),
+    ("m66", "models.py", "        return self.lower_bounds, self.upper_bounds\n", "        return self.upper_bounds, self.lower_bounds\n", [P + "models.ContinuousMultiVariable.get_bounds"], True),
+    ("m67", "models.py", "        return [v.decode(value[idx]) for idx, v in enumerate(self._children)]\n", "        return [v.decode(value[0]) for idx, v in enumerate(self._children)]\n", [P + "models.ContinuousMultiVariable.decode"], True),
+    ("h62", "models.py", "            temp = x[counter:(counter + v.size())]\n", "            width = v.size()\n            temp = x[counter:counter + width]\n", [P + "models.Task.transform_solution"], False),
     ("h60", "helpers.py", "    pop_new = population.copy()\n    pop_new.sort(", "    sorted_population = population.copy()\n    pop_new = sorted_population\n    pop_new.sort(", [H + "sort_by_cost"], False),
 ]
 RUNNER = r'''
